@@ -185,6 +185,7 @@ class Run:
             env["MIRIFLAGS"] = flags
         if self.variant == "asan":
             env.setdefault("ASAN_OPTIONS", "halt_on_error=1:abort_on_error=1:detect_leaks=0")
+            env.setdefault("VMV_ARENA", "heap")
         if self.variant == "tsan":
             env.setdefault("TSAN_OPTIONS", "halt_on_error=1:exitcode=66")
         env.setdefault("RUST_BACKTRACE", "0")
